@@ -232,6 +232,14 @@ func runC01(s *core.Sim, tier string) RunInfo {
 			}
 		}
 	}
+	// a type that rejects with one shared *VerifyError value (a sentinel): first a header far ahead,
+	// then an adjacent one - what Verify made of the first rejection must not stick to the value
+	for _, hrel := range []int{3, 2, 3, 2} {
+		c := c01case{false, false, false, hrel, 2, 0, simhdr.ShapeSharedHard}
+		t, u := c.build(s, drift)
+		checkVerify(s, drift, t, u, "shared rejection value, "+c.String())
+		evals++
+	}
 	// the same header flips from "from the future" to acceptable as the clock advances
 	t := ch.At(20)
 	u := simhdr.Retime(ch.At(21), time.Now().Add(drift+time.Duration(1+s.Tape.Draw("ahead", 1<<30))))
